@@ -136,7 +136,7 @@ var vCELRules = []string{"true", "false", "has(self.status)"}
 
 type vProbeSpec struct {
 	kindSel  int // 0 none, 1 apps/Deployment, 2 apps/StatefulSet
-	labelSel bool
+	labelSel int // 0 none, 1 matchLabels app=a, 2 matchExpressions app In (a), 3 matchExpressions app Exists, 4 app=a and app NotIn (b)
 	inner    []vInner
 }
 
@@ -155,9 +155,19 @@ func vDrawProbes() ([]corev1alpha1.ObjectSetProbe, []vProbeSpec) {
 		case 2:
 			osp.Selector.Kind = &corev1alpha1.PackageProbeKindSpec{Group: "apps", Kind: "StatefulSet"}
 		}
-		sp.labelSel = verifrt.Bool(p + ".labelSelector")
-		if sp.labelSel {
+		sp.labelSel = verifrt.IntRange(p+".labelSelector", 0, 1+3*verifrt.Bound("withExpressions", 0))
+		switch sp.labelSel {
+		case 1:
 			osp.Selector.Selector = &metav1.LabelSelector{MatchLabels: map[string]string{"app": "a"}}
+		case 2:
+			osp.Selector.Selector = &metav1.LabelSelector{MatchExpressions: []metav1.LabelSelectorRequirement{
+				{Key: "app", Operator: metav1.LabelSelectorOpIn, Values: []string{"a"}}}}
+		case 3:
+			osp.Selector.Selector = &metav1.LabelSelector{MatchExpressions: []metav1.LabelSelectorRequirement{
+				{Key: "app", Operator: metav1.LabelSelectorOpExists}}}
+		case 4:
+			osp.Selector.Selector = &metav1.LabelSelector{MatchLabels: map[string]string{"app": "a"},
+				MatchExpressions: []metav1.LabelSelectorRequirement{{Key: "app", Operator: metav1.LabelSelectorOpNotIn, Values: []string{"b"}}}}
 		}
 		ni := verifrt.IntRange(p+".nInner", 0, verifrt.Bound("maxInner", 2))
 		for j := 0; j < ni; j++ {
@@ -198,8 +208,11 @@ func (s *vObjState) selectedBy(p vProbeSpec) bool {
 		k = s.kind == "StatefulSet"
 	}
 	l := true
-	if p.labelSel {
+	switch p.labelSel {
+	case 1, 2, 4:
 		l = verifrt.And(s.hasLabel, s.label == "a")
+	case 3:
+		l = s.hasLabel
 	}
 	return verifrt.And(k, l)
 }
